@@ -309,3 +309,21 @@ Proof.
   destruct (decode_struct S E fuel true s (new_reader d)) as [[vs r]| | |]; cbn in *; auto.
   destruct (has_unread r); exact I.
 Qed.
+
+(* memory: readBytes never allocates more than the input that remains (the size guard precedes make) *)
+Theorem read_bytes_alloc_bounded : forall r bs r', rinv r -> read_bytes_r r = Ok (bs, r') ->
+  (List.length bs <= List.length (data r) - idx r)%nat.
+Proof.
+  intros r bs r' Hr H. unfold read_bytes_r in H. destruct (read_uint_r_total r Hr) as [Ht Hp].
+  destruct (read_uint_r r) as [[size r1]| | |]; cbn [bind] in *; try discriminate.
+  cbn in Ht, Hp. destruct Ht as (D & L & I & [Hi Hs]).
+  unfold to_u64 in H. rewrite Z.mod_small in H by lia.
+  destruct (N.ltb_spec (Z.to_N (Z.of_nat (List.length (data r1)) - Z.of_nat (idx r1))) size); [discriminate|].
+  unfold to_int in H. destruct (N.ltb_spec size (2^63)); [|lia].
+  destruct (Z.ltb_spec (Z.of_N size) 0); [lia|].
+  unfold wrap_int in H. rewrite Z.mod_small in H by lia.
+  unfold slice in H.
+  destruct ((0 <=? Z.of_nat (idx r1))%Z && (Z.of_nat (idx r1) <=? Z.of_nat (idx r1) + Z.of_N size + 2 ^ 63 - 2 ^ 63)%Z &&
+            (Z.of_nat (idx r1) + Z.of_N size + 2 ^ 63 - 2 ^ 63 <=? Z.of_nat (List.length (data r1)))%Z) eqn:E; [|discriminate].
+  cbn [bind] in H. inversion H; subst. rewrite firstn_length. rewrite D in *. lia.
+Qed.
